@@ -41,7 +41,7 @@ def python_cases(ctx, rng, fmt, txt, nw, nh):
     if (fmt, txt) == QR1:
         for m in ([0, 1] if ctx.quick else [0, 1, 4, 20]):
             u = nw + 2 * m
-            lo, hi = (u - 1, 2 * u + 1) if ctx.quick else (0, 2 * u + 2)
+            lo, hi = (u - 1, 2 * u + 1) if (ctx.quick or m > 1) else (0, 2 * u + 2)
             for rw in range(lo, hi + 1):
                 for rh in range(lo, hi + 1):
                     out.append((rw, rh, m))
@@ -57,7 +57,7 @@ def python_cases(ctx, rng, fmt, txt, nw, nh):
             for rh in (range(0, hi) if not ctx.quick else [0, nh - 1, nh, nh + 1, 2 * nh - 1, 2 * nh, rng.randrange(hi), rng.randrange(hi)]):
                 out.append((rw, rh, -1))
     # seeded: anywhere up to 8 x natural size, all residues modulo the module size get hit over the run
-    for _ in range(12 if ctx.quick else 150):
+    for _ in range(12 if ctx.quick else 100):
         m = rng.choice([-1, 0, 1, 2, 3, 4, 5, 8, 13, 20]) if c != "dm" else -1
         uw, uh = nw + quiet(fmt, m), nh + (quiet(fmt, m) if c == "qr" else 0)
         rw = rng.randint(0, 8 * uw)
@@ -83,7 +83,7 @@ def tlc_cases(ctx, syms):
     """boundary cases computed by TLC from the module counts measured on the real encoders"""
     sj = json.dumps([dict(fmt=s["fmt"], nw=s["nw"], nh=s["nh"]) for s in syms])
     res = vlib.run_tlc(ctx, "MC_Render", "Gen_Render", files={"syms.json": sj}, workers=1, timeout=900,
-                       consts={"K": 2 if ctx.quick else 8})
+                       consts={"K": 3 if ctx.quick else 5})
     out = {}
     for lst in vlib.tlc_printed(res):
         for c in lst:
@@ -93,21 +93,30 @@ def tlc_cases(ctx, syms):
     return out
 
 
-def cost(o):
-    return 30 + sum(len(r) for r in o.get("rows", [])) + 4 * o.get("gw", 0) * (1 + len(o.get("mods", [])) // 4) // 8
+def costs(obs):
+    """rough validation cost per event (module rows x image width + image height), to cut shards of similar work"""
+    out, nh = [], 1
+    for o in obs:
+        if o["op"] == "sym":
+            nh = max(1, o.get("nh", 1))
+            out.append(50 + o.get("nw", 0) * nh // 4)
+        else:
+            out.append(60 + o.get("gw", 0) * (nh + 2) + 3 * o.get("gh", 0))
+    return out
 
 
 def validate_sharded(ctx, obs, starts):
-    total = sum(cost(o) for o in obs)
-    target = total / vlib.NCPU
+    cs = costs(obs)
+    target = sum(cs) / (vlib.NCPU if ctx.quick else 3 * vlib.NCPU)
     cuts, acc = [0], 0
     sset = set(starts)
     for i, o in enumerate(obs):
         if i in sset and acc >= target and i > cuts[-1]:
             cuts.append(i)
             acc = 0
-        acc += cost(o)
+        acc += cs[i]
     cuts.append(len(obs))
+    ctx.extra["validation_cost_units"] = sum(cs)
 
     def one(i):
         lo, hi = cuts[i], cuts[i + 1]
@@ -167,9 +176,10 @@ def run(ctx):
             if (f, t) in (QR1, EAN8) and label.startswith("enumerated"):
                 nexh += len(cases)
             cases = sorted(set(cases))
-            for i in range(0, len(cases), 120):
+            step = 120 if o["nw"] * o["nh"] < 900 else 30        # short traces for big symbols: finer shard cuts
+            for i in range(0, len(cases), step):
                 tr = [ev("sym", f, t)]
-                for rw, rh, m in cases[i:i + 120]:
+                for rw, rh, m in cases[i:i + step]:
                     tr.append(ev("render", f, t, rw, rh, m, mstr=1 if (m >= 0 and (rw + rh + m) % 7 == 0) else 0))
                 traces.append(tr)
                 labels.append(label)
